@@ -20,6 +20,7 @@ mod corr_lineage;
 mod corr_deadline;
 mod front;
 mod corr_chunks;
+mod cli;
 mod meta_oracle;
 mod raw_api;
 
@@ -124,6 +125,8 @@ fn main() {
         "oracle-c05" => front::oracle(&mut ctx),
         "corr-front" => front::corr(&mut ctx),
         "corr-chunks" => corr_chunks::corr(&mut ctx),
+        "corr-cli" => cli::corr(&mut ctx),
+        "oracle-cli" => cli::oracle(&mut ctx),
         "oracle-meta" => meta_oracle::oracle(&mut ctx),
         "corr-raw" => raw_api::corr(&mut ctx),
         "oracle-c11" => raw_api::oracle(&mut ctx),
